@@ -273,7 +273,7 @@ def r3_special(ctx, F):
                 ctx.check("R3-special-files", key, a[3] == "O_PATH", "lookup opens the object with `%s`, not O_PATH" % a[3])
             elif owner == "reopen_fd_through_proc":
                 ctx.check("R3-special-files", key, a[0] == "proc_self_fd", "reopen_fd_through_proc opens relative to `%s`" % a[0])
-            elif owner == "new" and nm == "open_file":
+            elif owner == "new" and nm in ("open_file", "openat"):
                 ctx.check("R3-special-files", key, "PROC_SELF_FD" in a[1], "PassthroughFs::new opens `%s`; only /proc/self/fd may be opened by absolute path" % a[1])
             elif owner == "open_inode" and nm == "open_file":
                 ctx.ok("R3-special-files", key, "InodeData::open_file behind the is_safe_inode gate", nontrivial=False)
@@ -353,6 +353,17 @@ def r5_flags(ctx, F, table):
         a = [vf.render(x, b, short=True) for x in v.call_args(nw[0])]
         ok = a[0] == "inode" and a[2] == "flags" and "open_inode(self, inode, flags)" in a[1]
     ctx.check("R5-flag-algebra", "do_open/handle-flags", ok, "do_open does not record (inode, file opened with the request's flags, the request's flags) in the handle", loc=b.loc())
+    # create records the request's flags as well (not the rewritten open flags): check_fd_flags compares them with each WRITE's flags
+    b = c08.pfs_method(F, "create")
+    v = vf.VF(b, inline_depth=0)
+    nw = [c for c in live_calls(b) if c.name == "new" and "HandleData" in (c.fn or "")]
+    ok = len(nw) == 1
+    if ok:
+        a = [vf.render(x, b, short=True) for x in v.call_args(nw[0])]
+        ok = a[0].endswith("?.inode") and "do_lookup(self, parent, name)" in a[0] and a[2] == "args.flags"
+    ctx.check("R5-flag-algebra", "create/handle-flags", ok,
+              "create records `%s` as the handle's flags; like do_open it must record the request's flags (args.flags), otherwise the first WRITE "
+              "re-applies flags the open deliberately cleared (O_APPEND under writeback)" % (vf.render(v.call_args(nw[0])[2], b, short=True)[:120] if nw else "?"), loc=b.loc())
 
 
 META = {
